@@ -64,11 +64,11 @@ Theorem C01_HBH_getters_safe : forall v, wf v -> bytes_ok (arr v) ->
   HBH_IsValid v = Ok true -> getters_ok [] HBH_getters v.
 Proof. exact HBH_safe. Qed.
 Print Assumptions C01_HBH_getters_safe.
-Theorem C01_HBH_len_only_partial : forall v v', wf v -> wf v' -> bytes_ok (arr v) -> bytes_ok (arr v') ->
+Theorem C01_HBH_len_only : forall v v', wf v -> wf v' -> bytes_ok (arr v) -> bytes_ok (arr v') ->
   HBH_IsValid v = Ok true -> HBH_IsValid v' = Ok true -> view v = view v' ->
-  getters_len_only HBH_findings_C02 HBH_getters HBH_specs v v'.
+  getters_len_only [] HBH_getters HBH_specs v v'.
 Proof. exact HBH_len_only. Qed.
-Print Assumptions C01_HBH_len_only_partial.
+Print Assumptions C01_HBH_len_only.
 
 Theorem C01_ICMP_getters_safe : forall v, wf v -> bytes_ok (arr v) ->
   ICMP_IsValid v = Ok true -> getters_ok [] ICMP_getters v.
@@ -389,3 +389,8 @@ Theorem C01_Ether_known_exact : forall v, wf v -> bytes_ok (arr v) -> Ether_IsVa
   Forall (fun ng => known_of Ether_findings (fst ng) v = true <-> ~ getter_ok v (snd ng)) Ether_getters.
 Proof. exact Ether_known_exact_C01. Qed.
 Print Assumptions C01_Ether_known_exact.
+
+Example C01_HBH_nonvacuous : wf ex_hbh /\ bytes_ok (arr ex_hbh) /\ HBH_IsValid ex_hbh = Ok true /\
+  HBH_Parse ex_hbh = Ok VU /\ HBH_Data ex_hbh = Ok (VR 2 14).
+Proof. exact HBH_valid_ex. Qed.
+Print Assumptions C01_HBH_nonvacuous.
